@@ -96,6 +96,9 @@ class Ops(object):
     # ------------------------------------------------------------------ binary
     def binop(self, it, op, a, b):
         ctx = it.ctx
+        from . import api as _api
+        if isinstance(a, _api.Dom) and isinstance(b, _api.Dom) and op == 'BitOr':
+            return a | b
         # repo class instances: dunder dispatch through contracts
         if isinstance(a, Obj) or isinstance(b, Obj):
             return self.obj_binop(it, op, a, b)
